@@ -146,6 +146,8 @@ M.contract(
         f'implies(any({IS} for s in self), any(result[q].is_assignment and result[q].symbol == symbol for q in range(len(result))))',
         # statements before the first assignment of the symbol keep their place
         'all(implies(not any(self[r].is_assignment and self[r].symbol == symbol for r in range(q + 1)), q < len(result) and result[q] == self[q]) for q in range(len(self)))',
+        # statements after the last assignment of the symbol keep their distance from the end
+        'all(implies(not any(atend(self, e).is_assignment and atend(self, e).symbol == symbol for e in range(d + 1)), d < len(result) and atend(result, d) == atend(self, d)) for d in range(len(self)))',
     ],
     # (ranges start at 0 with an explicit lower guard: index terms stay free of arithmetic, so they can
     # serve as quantifier patterns)
@@ -159,7 +161,8 @@ M.contract(
         'all(all(q < len(self) - k or r <= q or not (new[q].is_assignment and new[q].symbol == symbol and new[r].is_assignment and new[r].symbol == symbol)'
         '        for r in range(len(new))) for q in range(len(new)))',
         # (counted from the END of the list: a deletion in front of it does not move the witness)
-        'implies(not last, any(d < len(new) - (len(self) - k) and new[len(new) - 1 - d].is_assignment and new[len(new) - 1 - d].symbol == symbol for d in range(len(new))))',
+        'implies(not last, any(d < len(new) - (len(self) - k) and atend(new, d).is_assignment and atend(new, d).symbol == symbol for d in range(len(new))))',
         'all(implies(not any(self[r].is_assignment and self[r].symbol == symbol for r in range(q + 1)), q < len(new) and new[q] == self[q]) for q in range(len(self)))',
+        'all(implies(not any(atend(self, e).is_assignment and atend(self, e).symbol == symbol for e in range(d + 1)), d < len(new) and atend(new, d) == atend(self, d)) for d in range(len(self)))',
     ])],
 )
